@@ -20,15 +20,15 @@
     * the rational engine of the driver (GeoModel/GeodesyNum.lean) against Mathlib's real functions
       (helpers in GeoProofs/Lemmas/C16Q*.lean): `piQ` within 2e-40 of π; `sinQ`/`cosQ` within 2^-92 on
       the reduced range [-piQ, piQ), 2^-91 up to |x| = 1000, for every x with the reduction multiple
-      explicit; `sqrtQ` within one grid step; `asinQ` a posteriori from the certificate `asinCert`
-      that the driver evaluates on every Haversine pair; hence the driver's Haversine distance is within
+      explicit; `sqrtQ` within one grid step; `asinQ` (and `atan2Q` against `Complex.arg`) a posteriori
+      from the certificate `asinCert` that the driver evaluates on every Haversine pair; hence the driver's Haversine distance is within
       `R·2^-40` (6 µm on the mean Earth) of the real-number formula.
   NOT proved (see lib/props/C16.py): the inverse relationship itself and the ratio division —
   they are checked on the implementation's values by the Lean checker in GeoModel/Ops/C16.lean;
-  convergence of the Newton arcsine (replaced by the certificate); `atan2Q`.
+  convergence of the Newton arcsine (replaced by the certificate, also inside `atan2Q`).
 -/
 import GeoModel.Geodesy
-import GeoProofs.Lemmas.C16QHav
+import GeoProofs.Lemmas.C16QAtan2
 import Mathlib.Tactic.Linarith
 import Mathlib.Tactic.Ring
 import Mathlib.Tactic.NormNum
@@ -512,6 +512,24 @@ theorem ratAsin_close_partial (x : ℚ) (hx : |x| ≤ 1) (hc : asinCert x = true
 
 example : |(1 / 2 : ℚ)| ≤ 1 ∧ Geo.GeodesyNum.asinCert (1 / 2) = true :=
   ⟨by norm_num, by decide +kernel⟩
+
+open Geo.GeodesyNum in
+/-- [T] (a posteriori) `atan2Q y x` against Mathlib's two-argument arctangent `Complex.arg (x + y·i)`
+(range (-π, π], the convention of libm's `atan2` away from the signed zeros): within `2^-41` when the
+grid root of `x² + y²` is at least `2^-40`, GIVEN the certificate of the one arcsine the branch calls
+(on the smaller of `y/r`, `x/r`, so `|·| ≤ 0.71`: there the true error is about 1e-27). -/
+theorem ratAtan2_close_partial (y x : ℚ) (hr : 1 / 2 ^ 40 ≤ sqrtQ (x * x + y * y))
+    (hc : asinCert ((if rabs y ≤ rabs x then y else x) / sqrtQ (x * x + y * y)) = true) :
+    |((atan2Q y x : ℚ) : ℝ) - Complex.arg ⟨(x : ℝ), (y : ℝ)⟩| ≤ 1 / 2 ^ 41 :=
+  C16Q.ratAtan2_close y x hr hc
+-- full statement (not proved): without the certificate, and for every (x, y) ≠ (0, 0) (for a tiny root the
+-- division by the grid root loses relative accuracy: the bound is `2^-100 / r`).
+-- The driver does NOT evaluate this certificate (bearing / destination comparisons); only `havCert`.
+
+example : (1 : ℚ) / 2 ^ 40 ≤ Geo.GeodesyNum.sqrtQ ((-4) * (-4) + 3 * 3) ∧
+    Geo.GeodesyNum.asinCert ((if rabs (3 : ℚ) ≤ rabs (-4 : ℚ) then (3 : ℚ) else -4) /
+      Geo.GeodesyNum.sqrtQ ((-4) * (-4) + 3 * 3)) = true := by
+  decide +kernel
 
 /-- the point with real coordinates -/
 abbrev castP (a : P2 ℚ) : P2 ℝ := C16Q.castP a
